@@ -75,7 +75,8 @@ def check_source(chk, name, lines, tier, start=2000, until=2050, scan_grid=300):
         disagreements += n
     # arduino target: the generated C++ tables compiled into the sweep driver and read by the real processors
     if 'basic' in out_dirs and 'extended' in out_dirs:
-        exe, err = compiler.build_scanner_for(os.path.join(out_dirs['basic'], 'arduino'), os.path.join(out_dirs['extended'], 'arduino'), 'tzscan-' + name)
+        exes, err = compiler.build_tools_for(os.path.join(out_dirs['basic'], 'arduino'), os.path.join(out_dirs['extended'], 'arduino'), 'tools-' + name)
+        exe = exes['tzscan'] if exes else None
         if exe is None:
             chk.violation('%s:arduino:does-not-compile' % name, 'generated C++ tables do not compile: %s' % err[-1500:], {'source': name})
         else:
@@ -94,6 +95,14 @@ def check_source(chk, name, lines, tier, start=2000, until=2050, scan_grid=300):
                 tr += r.generated
                 progs += 1
                 disagreements += n
+                # the processors reading the generated tables still follow their algorithm-level specifications
+                # (ExtProc.tla / BasicProc.tla): table for table, every year 1999..2050
+                from .. import extproc
+                d = extproc.dump_tables(exes['dbdump'], scope)
+                obs = extproc.impl_tables(exes['pairdrv'], len(d['zones']), start - 1, until, mode=extproc.SPECS[scope][1])
+                r3, _b, _p = extproc.check_tables(chk, '%s:%s:arduino' % (name, scope), d, obs, None, work, y0=start, y1=until - 1, ylast=until, scope=scope, invariants=[])
+                st += r3.distinct
+                tr += r3.generated
     return progs, disagreements, st, tr, results
 
 
